@@ -15,6 +15,48 @@ Theorem C20_bound : forall idn c oid pdu,
 Proof. exact reply_bound. Qed.
 Print Assumptions C20_bound.
 
+(* COMPLETENESS.  Every value at most 244 bytes, read code 1-3 (stream access), start id 0 or a
+   configured object of the category: the chain of requests a client performs while
+   more-follows = 0xFF terminates (any fuel above the number of expected objects is enough, so
+   fuel is never exhausted) and the concatenation of the pages' objects is exactly the
+   configured non-empty objects of the category from the start id on - each once, ascending. *)
+Theorem C20_complete : forall idn c oid fuel,
+  fits idn -> stream_code c -> start_ok idn c oid = true ->
+  (length (expected idn c oid) < fuel)%nat ->
+  exists ps, pchain code idn c oid fuel = (ps, PDone)
+             /\ concat (map pg_objs ps) = expected idn c oid
+             /\ NoDup (map fst (concat (map pg_objs ps))).
+Proof. exact complete_pages. Qed.
+Print Assumptions C20_complete.
+
+(* individual access (read code 4) returns the single requested object, in one page *)
+Theorem C20_individual : forall idn oid fuel,
+  0 <= oid <= 255 -> blen (idn oid) <= 244 -> (0 < fuel)%nat ->
+  pchain code idn 4 oid fuel =
+  ([{| pg_code := 4; pg_more := 0; pg_next := 0; pg_objs := [(oid, idn oid)] |}], PDone).
+Proof. exact individual_page. Qed.
+Print Assumptions C20_individual.
+
+(* any other start id: termination (and what is streamed: from the id itself if it is
+   configured - or always for read code 1 - else from object 0); the size bound is C20_bound *)
+Theorem C20_other_start : forall idn c oid fuel,
+  fits idn -> stream_code c -> 0 <= oid <= 255 ->
+  (length (category c) < fuel)%nat ->
+  exists ps, pchain code idn c oid fuel = (ps, PDone)
+             /\ concat (map pg_objs ps) = expected idn c (stream_start idn c oid).
+Proof. exact other_start_terminates. Qed.
+Print Assumptions C20_other_start.
+
+(* the full statement with the property's own bound (values up to 245 bytes); it is FALSE *)
+Definition C20_full_statement : Prop := forall idn c oid,
+  (forall k, blen (idn k) <= 245) -> stream_code c -> start_ok idn c oid = true ->
+  exists fuel ps, pchain code idn c oid fuel = (ps, PDone)
+                  /\ concat (map pg_objs ps) = expected idn c oid.
+
+Theorem C20_complete_refuted : ~ C20_full_statement.
+Proof. exact full_statement_refuted. Qed.
+Print Assumptions C20_complete_refuted.
+
 (* a 245-byte object: the same empty page, more-follows set, next id = the same id, forever *)
 Theorem C20_too_long_refuted : forall fuel,
   blen long_value = 245 /\
@@ -33,3 +75,13 @@ Print Assumptions C20_245_unsatisfiable.
 Theorem C20_read_code_0_refuted : forall idn oid, 0 <= oid <= 255 -> execute code idn 0 oid = Raise KeyError.
 Proof. exact read_code_0_raises. Qed.
 Print Assumptions C20_read_code_0_refuted.
+
+Example C20_nonvacuous :
+  let idn := id_of [(0, repeat 86%N 200); (1, repeat 80%N 100); (2, repeat 49%N 3); (5, [77%N])] in
+  fits idn /\ stream_code 2 /\ start_ok idn 2 0 = true /\ start_ok idn 2 1 = true
+  /\ map (fun p => (map fst (pg_objs p), pg_more p, pg_next p)) (fst (pchain code idn 2 0 5))
+     = [([0], 255, 1); ([1; 2; 5], 0, 0)].
+Proof.
+  cbv zeta. split; [|repeat split; auto; vm_compute; auto].
+  intro k. unfold id_of. repeat (destruct (_ =? k); [vm_compute; discriminate|]). vm_compute; discriminate.
+Qed.
